@@ -257,7 +257,8 @@ def main():
                    "cross-dimension raises. A case is (A,B,dim); non-trivial when A != B and dim != 0.",
               assumptions=["SI table vf/si.py written from the SI definitions is the oracle",
                            "finite magnitudes within +-1e8, exponents within [-4,4]"])
-    run.require("factor_checks", "value_checks", "contract:compute_conversion_factor", "contract:convert_unitvalue")
+    run.require("factor_checks", "value_checks", "contract:compute_conversion_factor", "contract:convert_unitvalue",
+                "repo_tests_contract:compute_conversion_factor")
     thorough = tier() == "thorough"
     cases = [("vf.checks.c06:case_pairs_exhaustive", {"kind": k}) for k in si.KINDS]
     cases.append(("vf.checks.c06:case_derived_symbols", {}))
@@ -294,14 +295,32 @@ def main():
                 run.count("value_checks", st["conversions"] + st["array_conversions"])
                 for k_, n_ in st.items():
                     run.count(k_, n_)
-                for h in v["keys"]:
-                    run.case(h, nontrivial=h in set(v["nontrivial"]), sample=v["sample"])
+                nt = set(v["nontrivial"])
+                for n_h, h in enumerate(v["keys"]):
+                    run.case(h, nontrivial=h in nt, sample=v["sample"] if n_h == 0 else None)
             for k_, n_ in v.get("contract_counts", {}).items():
                 run.count("contract:" + k_, n_)
             for b_ in v["bad"]:
                 run.violation("conversion", b_, mech={"what": b_.get("what", "factor")})
             for name, w in v.get("contract_bad", []):
                 run.violation("contract:" + name, w)
+    # the repository's own test-suite, run once with the conversion contracts switched on
+    import json as _json, os as _os, subprocess as _sp, tempfile as _tf
+    from vf.common import REPO, VERIF, SRC, DEPS, PY, SCRATCH
+    _os.makedirs(SCRATCH, exist_ok=True)
+    outp = _tf.mktemp(prefix="contracts-", suffix=".json", dir=SCRATCH)
+    env = dict(_os.environ, PYTHONPATH=_os.pathsep.join([VERIF, SRC, DEPS]), VERIF_CONTRACT_OUT=outp, PYTHONWARNINGS="ignore")
+    pr = _sp.run([PY, "-m", "pytest", "-q", "-p", "no:cacheprovider", "-p", "vf.pytest_plugin", _os.path.join(REPO, "tests")],
+                 cwd=REPO, env=env, capture_output=True, text=True, timeout=1800)
+    try:
+        rep = _json.load(open(outp))
+        _os.remove(outp)
+        for k_, n_ in rep["counts"].items():
+            run.count("repo_tests_contract:" + k_, n_)
+        for name, w in rep["violations"]:
+            run.violation("contract:%s (during the repository's own tests)" % name, w)
+    except Exception as e:
+        run.inconclusive_because("repository tests with contracts on did not report: %s %s" % (e, pr.stdout[-200:]))
     run.exhaustive = False
     run.note("exhaustive_part", "all 11^2+10^2+10^2 ordered symbol pairs x 9 exponents; all 16 derived symbols x 6 exponents"
              + ("; all 1100x1100 system pairs x 7 dimension vectors" if thorough else ""))
